@@ -44,9 +44,9 @@ m = {
    'engine': 'sim',
    'technique': "deterministic simulation with fault injection: seeded histories of calls under simulated addresses/clock/cwd, I/O faults and crash points, each call compared bit-exactly with a pristine-interpreter reference",
    'level_claimed': {'category': 'exploration',
-      'text': "Seeded search over histories (sequences of run.single / pipeline / CLI calls with interleaved inputs, options and parameter files), object-address layouts, hash seeds, working directories with decoy files, calendar dates, I/O faults and crashes at arbitrary propka lines. Every call's full observation record (groups, determinants, profiles, pI, hydrogens, .pka text minus date line) must equal, bit for bit, the record of the same content+options run alone in a pristine interpreter. A clean batch is evidence, not proof; the property quantifies over histories and schedules, which only sampling under a controlled simulator can reach.",
+      'text': "Seeded search over histories (sequences of run.single / pipeline / CLI calls and step-level API calls on several molecules interleaved by a seeded scheduler, with interleaved inputs, options and parameter files; crash sweeps aimed at in-flight process state), object-address layouts, hash seeds, working directories with decoy files, calendar dates, I/O faults and crashes at arbitrary propka lines. Every call's full observation record (groups, determinants, profiles, pI, hydrogens, .pka text minus date line) must equal, bit for bit, the record of the same content+options run alone in a pristine interpreter. A clean batch is evidence, not proof; the property quantifies over histories and schedules, which only sampling under a controlled simulator can reach.",
       'design_ref': 'DESIGN.md §3, §4'},
-   'level_note': "Differential oracle: the reference is the same code, so defects common to every execution are invisible. Simulated addresses are 16-byte aligned distinct values (any such layout is realisable by CPython); native-address runs are sampled and converted to recorded-address replays. Logging configuration, locale and Python version are equal on both sides. No concurrent callers.",
+   'level_note': "Differential oracle: the reference is the same code, so defects common to every execution are invisible. Simulated addresses are 16-byte aligned distinct values (any such layout is realisable by CPython); native-address runs are sampled and converted to recorded-address replays. The reference interpreter runs under the canonical hash seed 0 and a canonical address layout. Logging configuration, locale and Python version are equal on both sides. No concurrent callers.",
   },
  ],
  'not_applicable': [{'property_id': k, 'reason': v} for k, v in sorted(NA.items())],
